@@ -237,9 +237,11 @@ def P_C08_raw (i : IDL) (req : Json) (o : RawObs) : Option String :=
     | some m =>
       if m.input.isEmpty then none else
       let oneway := jBoolIs req "oneway" true
+      -- ill-typed: the IDL-typed decoding of the parameters fails (`decodeStruct` is the IDL's JSON shape with
+      -- serde's documented leniencies), or the independent kind checker finds a definite mismatch
       let bad := match nonNull (req.get? "parameters") with
         | none => true
-        | some p => strictIllStruct i.env m.input p
+        | some p => strictIllStruct i.env m.input p || (decodeStruct i.env m.input p).isNone
       let good := match nonNull (req.get? "parameters") with
         | none => false
         | some p => conforms i.env (.struct m.input) p
@@ -259,7 +261,10 @@ def P_C08_raw (i : IDL) (req : Json) (o : RawObs) : Option String :=
 /-- serde level: `from_value::<T>(j).map(to_value)` -/
 def P_C08_probe (env : Env) (t : Ty) (j : Json) (result : Option Json) : Option String :=
   match result with
-  | some j' => if conforms env t j' then none else some "serialised-value-not-in-idl-shape"
+  | some j' =>
+    -- JSON that the IDL-typed decoding refuses must be refused (e.g. a `[string]()` member that is not `{}`)
+    if (decode env t j).isNone then some "ill-typed-json-accepted"
+    else if conforms env t j' then none else some "serialised-value-not-in-idl-shape"
   | none => if conforms env t j then some "idl-shaped-json-rejected" else none
 
 /-! #### P_C09 -/
@@ -294,6 +299,22 @@ def P_C09_front (parsed : Option IDL) (status : String) (emitted : Bool) (same :
     else if !emitted then some "accepted-text-nothing-emitted"
     else if same == some false then some "front-end-output-differs-from-generate"
     else none
+
+/-- the build helper on several files in one call: with only accepted, well-formed, Safe-to-generate inputs it
+    must succeed and emit for every file what `generate` emits; with a rejected file it must fail with a
+    diagnostic and emit nothing for that file -/
+def P_C09_frontmany (parsed : List (Option IDL)) (status : String) (outs : List (Bool × Option Bool)) : Option String :=
+  if parsed.length != outs.length then some "front-end-build-helper-observation-malformed"
+  else if parsed.all (fun p => match p with
+      | some i => wellFormedB i && safeRawIdent i
+      | none => false) then
+    if status != "ok" then some ("front-end-build-helper-failed-on-valid-input status=" ++ status)
+    else if outs.any (fun o => !o.1) then some "front-end-build-helper-emitted-nothing-for-valid-input"
+    else if outs.any (fun o => o.2 == some false) then some "front-end-build-helper-output-differs-from-generate"
+    else none
+  else if (parsed.zip outs).any (fun (p, o) => p.isNone && o.1) then some "rejected-text-but-code-emitted"
+  else if parsed.any (·.isNone) && status == "ok" then some "rejected-text-without-diagnostic status=ok"
+  else none
 
 end Gen
 end VV
